@@ -549,6 +549,8 @@ def styles(draw: Any, lint_clean: bool = False) -> render_bp.Style:
         leading_blank=draw(st.sampled_from([0, 0, 1, 3])),
         hex_numbers=draw(st.booleans()),
         seed=draw(st.integers(0, 1 << 16)),
+        spicy_comments=draw(st.booleans()),
+        trailing_comments=(not lint_clean) and draw(st.booleans()),
     )
 
 
